@@ -557,8 +557,8 @@ func (c *specCtx) binary(x *SExpr) *SVal {
 		return &SVal{T: Ge(a.T, b.T), Ty: boolT}
 	case "+":
 		if a.T.S == StrSort {
-			DeclFunc("str.cat", StrSort, StrSort, StrSort)
-			return &SVal{T: App("str.cat", a.T, b.T), Ty: a.Ty}
+			DeclFunc("go.str.cat", StrSort, StrSort, StrSort)
+			return &SVal{T: App("go.str.cat", a.T, b.T), Ty: a.Ty}
 		}
 		return &SVal{T: Add(a.T, b.T), Ty: a.Ty}
 	case "-":
@@ -644,8 +644,8 @@ func (c *specCtx) call(x *SExpr) *SVal {
 			}
 			return &SVal{T: Acc(v.T, "card"), Ty: types.Typ[types.Int]}
 		case v.T.S == StrSort:
-			DeclFunc("str.len", IntSort, StrSort)
-			return &SVal{T: App("str.len", v.T), Ty: types.Typ[types.Int]}
+			DeclFunc("go.str.len", IntSort, StrSort)
+			return &SVal{T: App("go.str.len", v.T), Ty: types.Typ[types.Int]}
 		}
 		c.fail("len of %s", v.T.S)
 	case "dom":
